@@ -30,9 +30,19 @@ func VerifTables() (plain []uint32, dotu []uint32, first uint8, last uint8) {
 	return append([]uint32(nil), minFcsize[:]...), append([]uint32(nil), minFcusize[:]...), Tversion, Tlast
 }
 
+// VerifFid is the framework's view of one fid.
+type VerifFid struct {
+	Ref       int
+	Type      uint8
+	Opened    bool
+	Omode     uint8
+	Diroffset uint64
+	Uid       int // -1 when no user is bound
+}
+
 // VerifConn reports bookkeeping of a server connection.
 type VerifConnInfo struct {
-	Fids   map[uint32]int // fid number -> refcount
+	Fids   map[uint32]VerifFid
 	Tags   map[uint16]int // tag -> length of the request chain
 	Rchan  int            // pooled reply buffers
 	Msize  uint32
@@ -43,7 +53,7 @@ type VerifConnInfo struct {
 
 func VerifConn(conn *Conn) VerifConnInfo {
 	var vi VerifConnInfo
-	vi.Fids = make(map[uint32]int)
+	vi.Fids = make(map[uint32]VerifFid)
 	vi.Tags = make(map[uint16]int)
 	conn.Lock()
 	fids := make([]*SrvFid, 0, len(conn.fidpool))
@@ -63,13 +73,20 @@ func VerifConn(conn *Conn) VerifConnInfo {
 	conn.Unlock()
 	for _, f := range fids {
 		f.Lock()
-		vi.Fids[f.fid] = f.refcount
+		uid := -1
+		if f.User != nil {
+			uid = f.User.Id()
+		}
+		vi.Fids[f.fid] = VerifFid{f.refcount, f.Type, f.opened, f.Omode, f.Diroffset, uid}
 		f.Unlock()
 	}
 	vi.Rchan = len(conn.rchan)
 	vi.Reqout = len(conn.reqout)
 	return vi
 }
+
+// VerifFidNo is the number of a fid (the field is unexported).
+func VerifFidNo(fid *SrvFid) uint32 { return fid.fid }
 
 // VerifConns returns the connections currently registered with the server.
 func VerifConns(srv *Srv) []*Conn {
